@@ -127,6 +127,118 @@ def case_predictive(B, cfg):
                  ref, tol=2e-2)
 
 
+class DosedSymMech(SymMechModel):
+    """the uninterpreted model with the dosing interface of chi.PKPDModel: a
+    protocol of events (level, start, duration, period, multiplier)"""
+
+    def __init__(self, B, n_params=2, n_outputs=1, events=()):
+        super(DosedSymMech, self).__init__(B, n_params, n_outputs)
+        from chisym.facade_myokit import Protocol
+        self._reg = None
+        if events:
+            self._reg = Protocol()
+            for e in events:
+                self._reg.schedule(*e)
+
+    def dosing_regimen(self):
+        return self._reg
+
+
+def expected_doses(events, final_time):
+    """documented table: one row per administration not later than the last
+    requested time; an indefinite regimen up to that time"""
+    rows = []
+    for (level, start, duration, period, mult) in events:
+        if start > final_time:
+            continue
+        if period == 0:
+            rows.append((start, duration, level * duration))
+            continue
+        k = 0
+        while start + k * period <= final_time and (mult == 0 or k < mult):
+            rows.append((start + k * period, duration, level * duration))
+            k += 1
+    return rows
+
+
+def case_dose_rows(B, cfg):
+    """(f) tables with include_regimen=True: every sample ID is labelled with
+    every dose event (time, duration, amount) -- per sample for the
+    predictive and population predictive model"""
+    events = []
+    for k, (start, period, mult) in enumerate(cfg['events']):
+        lv, du = B.var('rate%d' % k), B.var('dur%d' % k)
+        B.assume(lv > 0)
+        B.assume(du > 0)
+        events.append((lv, start, du, period, mult))
+    times = cfg['times']
+    ns = cfg['n_samples']
+    kind = cfg['kind']
+    rng = B.new_rng()
+    if kind == 'predictive':
+        mm = DosedSymMech(B, 2, cfg.get('n_out', 1), events)
+        pm = chi.PredictiveModel(
+            mm, [chi.GaussianErrorModel() for _ in range(mm.n_outputs())])
+        th = B.vars('psi', 2) + B.vars('sig', mm.n_outputs())
+        for x in th[2:]:
+            B.assume(x > 0)
+        sampler = lambda: pm.sample(
+            ps.arr(B, th), times, n_samples=ns, seed=3, include_regimen=True)
+        n_meas = mm.n_outputs() * len(times) * (ns or 1)
+    else:
+        units = cfg['units']
+        D = hier.total_dim(units)
+        mm = DosedSymMech(B, D - 1, 1, events)
+        pm = chi.PredictiveModel(mm, chi.GaussianErrorModel())
+        pop = hier.make_population(units, 2)
+        ppm = chi.PopulationPredictiveModel(pm, pop)
+        theta, per_dim = c06._units_theta(B, units, 2)
+        for q, u in enumerate(units):
+            if not ps.is_delta(u['kind']):
+                for j in range(u['n_dim']):
+                    B.assume(per_dim[q][0][1][j] > 0)
+        sampler = lambda: ppm.sample(
+            ps.arr(B, theta), times, n_samples=ns, seed=5,
+            include_regimen=True)
+        n_meas = len(times) * (ns or 1)
+    try:
+        df = sampler()
+    except Exception as e:
+        B.fact('no-exception:sample(include_regimen=True)', False, repr(e))
+        return
+    want = expected_doses(events, max(times))
+    B.fact('columns of the table', all(c in df.columns for c in (
+        'ID', 'Time', 'Observable', 'Value') + (
+        ('Duration', 'Dose') if want else ())), repr(list(df.columns)))
+    if want and 'Dose' not in df.columns:
+        return
+    dose = df[df['Dose'].notnull()] if want else df.iloc[0:0]
+    meas = df[df['Observable'].notnull()]
+    B.fact('number of measurement rows', len(meas) == n_meas,
+           '%d vs %d' % (len(meas), n_meas))
+    got = {}
+    for _, r in dose.iterrows():
+        got.setdefault(r['ID'], []).append(
+            (r['Time'], r['Duration'], r['Dose']))
+    ids = list(range(1, (ns or 1) + 1))
+    B.fact('dose rows carry exactly the sample IDs',
+           sorted(got, key=repr) == sorted(ids, key=repr) if want
+           else not got, repr(sorted(got, key=repr)))
+    for i in ids:
+        rows = sorted(got.get(i, []), key=lambda r: float(r[0]))
+        B.fact('sample %d: one row per dose event up to the last time' % i,
+               len(rows) == len(want), '%d vs %d' % (len(rows), len(want)))
+        if len(rows) != len(want):
+            continue
+        for k, (r, w) in enumerate(zip(rows, sorted(
+                want, key=lambda r: float(r[0])))):
+            B.fact('sample %d dose %d: time' % (i, k),
+                   float(r[0]) == float(w[0]), '%r vs %r' % (r[0], w[0]))
+            B.eq('sample %d dose %d: duration' % (i, k), r[1], w[1])
+            B.eq('sample %d dose %d: amount = rate * duration' % (i, k),
+                 r[2], w[2])
+
+
 def case_population(B, cfg):
     if not B.symbolic:
         return   # term inspection: nothing to replay on floats
@@ -476,6 +588,23 @@ def jobs(tier):
                         ems=ems, times=times, n_samples=ns, generator=gen),
                         F))
     U = hier.unit
+    G = dict(F)
+    G.pop('confirm_by_terms')
+    G['diffcheck'] = True
+    evsets = [[(1.0, 0, 0)], [(0.0, 0, 0), (2.0, 0, 0)],
+              [(0.5, 1.0, 0)], [(0.5, 1.0, 2), (3.0, 0, 0)], [(5.0, 0, 0)],
+              []]
+    for k, ev in enumerate(evsets if q else evsets + [
+            [(0.0, 0.5, 3), (1.0, 0, 0), (2.5, 0, 0)]]):
+        for ns in (None, 1, 2, 3):
+            out.append(('dose_rows', 'case_dose_rows', dict(
+                kind='predictive', events=ev, times=[2.5, 1.0], n_samples=ns,
+                n_out=1 + (k % 2)), G))
+        for ns in (1, 2, 3):
+            out.append(('dose_rows', 'case_dose_rows', dict(
+                kind='population', events=ev, times=[2.5, 1.0], n_samples=ns,
+                units=[[U('gaussian'), U('lognormal')],
+                       [U('gaussian_nc', 2)]][k % 2]), G))
     comps = [[U('gaussian'), U('pooled')], [U('lognormal'), U('gaussian_nc')],
              [U('pooled'), U('lognormal_nc')], [U('gaussian', 2)],
              [U('hetero'), U('gaussian')], [U('truncgauss'), U('lognormal')],
